@@ -1214,6 +1214,7 @@ def comprehension(ex, e, fr, kind):
 
 
 COMPREHENSION_HOOKS = []
+YIELD_FROM_HOOKS = []   # f(ex, v, seq_ty) -> z3 Seq term or None
 
 
 # ---------------------------------------------------------------------------
